@@ -430,8 +430,21 @@ def loc(func_or_module, node) -> str:
     return f"{mod.relpath}:{getattr(node, 'lineno', 0)}"
 
 
+_NORM_CACHE = {}
+
+
 def norm(node) -> str:
     """Normalised text of a statement/expression used in finding keys (never line numbers)."""
+    k = id(node)
+    hit = _NORM_CACHE.get(k)
+    if hit is not None and hit[0] is node:
+        return hit[1]
+    s = _norm(node)
+    _NORM_CACHE[k] = (node, s)
+    return s
+
+
+def _norm(node) -> str:
     try:
         s = ast.unparse(node)
     except Exception:  # pragma: no cover
